@@ -107,6 +107,10 @@ def run(ctx):
                    "clock argument derives from the heads parameter via %s" % sorted(c.split("::")[-1] for c in cs & ({CLOCK_AT} | SCOPES)) if ok else
                    "clock argument of %s does not derive from the heads parameter (sources %s, literal None: %s)" % (callee(t), sorted(cs)[:5], lit_none))
     ctx.floor("ReadDoc methods with a heads parameter (Automerge, AutoCommit, Transaction, OwnedTransaction)", n_at, 60)
+    # ---- the cached clocks that scoped reads walk stay aligned with the actor table
+    from . import C28
+    ctx.rule("R11-fields", "ChangeGraph::insert_actor and remove_actor re-index the same actor-indexed structures (clock cache included)")
+    C28.check_actor_pair(ctx, f)
     # ---- (iii) get_scope
     for gp in scope_fns:
         check_scope(ctx, gp)
